@@ -729,16 +729,21 @@ static void DecodeCALLJMP(Word Index) {
     Boolean OK;
 
     if (ChkArgCnt(1, 1)) {
-        char* pAdr = ArgStr[1].str.p_str;
+        tStrComp Adr;
 
-        if (!strncmp(pAdr, "SHORT ", 6)) {
+        /* the distance keyword is stripped from the operand that is evaluated below */
+
+        StrCompRefRight(&Adr, &ArgStr[1], 0);
+        if (!as_strncasecmp(Adr.str.p_str, "SHORT ", 6)) {
             AdrByte = 2;
-            pAdr += 6;
-            KillPrefBlanks(pAdr);
-        } else if ((!strncmp(pAdr, "LONG ", 5)) || (!strncmp(pAdr, "NEAR ", 5))) {
+            StrCompIncRefLeft(&Adr, 6);
+            KillPrefBlanksStrCompRef(&Adr);
+        } else if (
+                (!as_strncasecmp(Adr.str.p_str, "LONG ", 5))
+                || (!as_strncasecmp(Adr.str.p_str, "NEAR ", 5))) {
             AdrByte = 1;
-            pAdr += 5;
-            KillPrefBlanks(pAdr);
+            StrCompIncRefLeft(&Adr, 5);
+            KillPrefBlanksStrCompRef(&Adr);
         } else {
             AdrByte = 0;
         }
@@ -754,7 +759,7 @@ static void DecodeCALLJMP(Word Index) {
 
         if (OK) {
             OpSize = 1;
-            DecodeAdr(&ArgStr[1]);
+            DecodeAdr(&Adr);
             switch (AdrType) {
             case TypeReg16:
                 BAsmCode[0] = 0xff;
